@@ -12,6 +12,7 @@ CONSTANTS
     PRIOS <- PriosOne
     JUNK = {"toolong"}
     MAXJUNK = 1
+    REKEEP = FALSE
     MAXSAVES = 2
     ImportCleans = TRUE
     UnmarshalMode = "merge"
